@@ -185,6 +185,25 @@ var props = map[string]*propCfg{
 		Technique:   "runtime trace checking against an executable sequential model; fault (panic) injection through a tag-guarded hook",
 		DesignRef:   "DESIGN.md §4 C19",
 	},
+	"C10": {
+		Rule:        "Metamorphic: for each operation instance (Add/Sub/Mul/Quo/FMA/Sqrt/Set/Neg/Abs; operands of 1..200 words so that shifts, Karatsuba scratch, squaring and the in-place quotient interact with reused capacity; occasional +-0/+-Inf operands; precisions 1..1 400) the result on a fresh receiver with distinct variables (value, sign, accuracy, precision, mode, or the panic class) is the reference. It must be reproduced (a) under a random sharing pattern of receiver and operands (5 for binary operations, 15 for FMA, 2 for unary ones; operands sharing a variable are given equal values, operands sharing the receiver fit its precision) with the non-shared operands left bit-identical, and (b) when the receiver is a variable of its own, by two receivers with previous contents drawn from: a longer value, a shorter value, +0, -0, +-Inf, an inexact accuracy, and raw receivers built through the verif export with a larger capacity whose words beyond len are stale (all nines, random, or >= base), an exactly sized buffer, and a zero that still carries the mantissa and an exponent anywhere in int32 of a previous value. Half of the cases run with the scratch pool poisoned. Non-trivial = a non-distinct sharing pattern.",
+		Assumptions: []string{"raw receivers are canonical values (or zeros with leftover fields, a state the public API produces): garbage is only placed beyond len(mant)", "results after an (identical) ErrNaN panic are undefined and not compared"},
+		Floors:      []floor{{"shape/FMA/z=u", 50}, {"shape/Add/z=x", 500}, {"shape/Quo/z=y", 500}, {"shape/Mul/z=x=y", 500}, {"shape/Sqrt/z=x", 1000}, {"dirty_receiver_variants", 40000}, {"dirty/raw-large-cap-stale", 4000}, {"dirty/raw-zero-form-stale-mant", 4000}},
+		LevelText:   "Runtime metamorphic monitoring: aliasing shapes and dirty receivers must reproduce the fresh-receiver result; needs no external truth, so it cannot disagree with a correct library.",
+		Technique:   "runtime metamorphic monitoring (aliasing partitions, dirty and raw-stale receivers, poisoned scratch pool)",
+		DesignRef:   "DESIGN.md §4 C10",
+	},
+	"C18": {
+		Rule:        "Worker built with -race and -tags verif. Per shard (4 shards = 4 different operand/job tables): 24 shared operands (5..6 000 digits, +-0, +Inf, 1) and a table of 400 jobs (Add, Sub, Mul, squaring, Quo incl. 100..200-word divisors, FMA, Sqrt, Cmp, Text, Format, Float64/32, Float, Int, Rat, GobEncode, MarshalText, Set; precisions to 4 000) are first computed sequentially twice (determinism, getters do not write). Then, per repetition (4 quick / 60 thorough), four configurations (GOMAXPROCS, goroutines) = (2,4), (4,16), (16,16), (16,64) run the jobs in per-goroutine random order, each goroutine writing only to its own receivers; in every other configuration the verif hooks poison the scratch pool and inject Gosched / 0..50 us sleeps / runtime.GC() (empties the pool) at the pool get/put sites. Oracles: (1) the race detector: any report block is a violation (deduplicated by the outermost frames of the two accesses); (2) every concurrent result must equal the sequential one; (3) operand snapshots before/after. Evidence counts operation intervals from different goroutines that overlapped on a common operand (atomic busy masks recorded at the client boundary), distinct overlapping (kind, kind) pairs, hook calls, injected yields and GC cycles, pool gets, Karatsuba and recursive-division entries. A case = one configuration run; all are non-trivial.",
+		Assumptions: []string{"the race detector only sees the interleavings that occurred: the claim is 'no race on the K overlapping operations observed', not schedule coverage", "the monitor's own state is atomics only; hooks are installed while no goroutine runs"},
+		Floors:      []floor{{"overlapping_operations_on_a_shared_operand", 5000}, {"distinct_overlapping_operation_pairs", 100}, {"concurrent_operations", 100000}, {"hook_calls_at_pool_sites", 10000}, {"injected_gc_cycles", 50}, {"hit_karatsuba", 1000}, {"hit_div_recursive", 100}, {"config/", 32}},
+		Variants:    []variant{{Name: "race", Tags: "verif", Race: true, Env: []string{"GORACE=halt_on_error=0 exitcode=0"}}},
+		Shards:      4,
+		RaceShards:  4,
+		LevelText:   "Race-detector monitoring of a read-only-sharing stress workload with injected delays, GC and pool poisoning, plus determinism and operand-snapshot oracles; evidence reports the overlaps actually observed.",
+		Technique:   "Go race detector over a stress workload with hook-injected yields/GC; determinism vs sequential reference; operand snapshots",
+		DesignRef:   "DESIGN.md §4 C18",
+	},
 }
 
 func writeManifest() {
